@@ -76,6 +76,14 @@ func vDrawFS(ndirs int, faults bool, maxDevs int) *vFS {
 		for j, name := range []string{"a.json", "b.yaml"} {
 			f := &vFile{name: name}
 			q := p + string(rune('a'+j)) + "."
+			if i >= 2 && j == 1 {
+				// directories beyond the second hold a single Spec-named file (keeps the case tree tractable)
+				f.state = vFileAbsent
+				f.vendor = "v0"
+				f.devs = []string{"unused"}
+				d.files = append(d.files, f)
+				continue
+			}
 			if d.state != vDirOK {
 				f.state = vFileAbsent
 			} else if faults {
